@@ -14,6 +14,7 @@ from .. import install, refs, gen, reach
 from ..install import ctx as _ctx
 from ..bootstrap import smod
 
+REPO_TESTS_UNDER_CONTRACTS = True
 RULE = ('cases = (window name, N, NFFT in {N, N+1, 2N-1, 2N, 2N+1, prime, 2^m}, real/complex, data kind in '
         '{noise, tones, const, int, dyn, impulse}, 1-D | 2-D with c columns, function | class | correlogram); '
         'exhaustive over the 29 windows x N in 1..40 (quick: 1..16 + sampled), sampled to 1024; non-trivial '
